@@ -2,4 +2,5 @@ SPECIFICATION Spec
 CONSTANTS MaxLen = 3
 Alphabet <- Alpha11
 Kinds <- KindsNone
+INVARIANTS DesignOK DesignIdem CodecOK ReflexiveOK AsIsOKOutsideKnown
 CHECK_DEADLOCK FALSE
